@@ -19,6 +19,7 @@ type hxEnt struct {
 	body    []byte
 	kids    []*hxEnt
 	bad     string
+	raw     []byte // the bytes this entity was parsed from
 }
 
 func hxLower(b []byte) string {
@@ -204,7 +205,7 @@ func hxHasPrefixAt(data []byte, at int, pre []byte) bool {
 
 // hxParseEntity parses one MIME entity (header section + body).
 func hxParseEntity(data []byte, depth int) *hxEnt {
-	e := &hxEnt{}
+	e := &hxEnt{raw: data}
 	hdrs, off, bad := hxSplitHeader(data)
 	e.hdrs = hdrs
 	if bad != "" {
